@@ -4,7 +4,7 @@ set -e
 cd /verif/harness
 CARGO_NET_OFFLINE=true cargo build --release --offline
 cd /verif/spec
-for f in Kv KvDispatch KvTrace MC_Kv; do
-  tla-sany $f.tla > /dev/null
+for f in *.tla; do
+  tla-sany "$f" > /dev/null || { echo "SANY rejects $f"; exit 1; }
 done
 echo setup ok
